@@ -15,8 +15,8 @@ if [ -n "$demo" ]; then
   [ -z "$dest" ] && dest="x/zzdemo/$(basename $demo)"
 fi
 patch -p1 -s --no-backup-if-mismatch < $d/patch.diff || { echo "PATCH-FAILED"; exit 3; }
-if go build ./... 2>&1 | grep -q .; then echo "NOCOMPILE"; go build ./... 2>&1 | head; exit 4; fi
-np=$(go test -vet=off -count=1 -json ./... 2>/dev/null | python3 -c "
+if go build -trimpath ./... 2>&1 | grep -q .; then echo "NOCOMPILE"; go build -trimpath ./... 2>&1 | head; exit 4; fi
+np=$(go test -trimpath -vet=off -count=1 -json ./... 2>/dev/null | python3 -c "
 import sys,json
 p=set();f=set()
 for l in sys.stdin:
@@ -30,9 +30,9 @@ echo "$np"
 if [ -n "$dest" ]; then
   mkdir -p $(dirname $dest); cp $demo $dest
   pkg=./$(dirname $dest)
-  if go test -vet=off -count=1 $pkg >/tmp/pvs_demo.log 2>&1; then echo "demo WITH change: PASS (unexpected)"; else echo "demo WITH change: FAIL (expected)"; fi
+  if go test -trimpath -vet=off -count=1 $pkg >/tmp/pvs_demo.log 2>&1; then echo "demo WITH change: PASS (unexpected)"; else echo "demo WITH change: FAIL (expected)"; fi
   patch -p1 -R -s --no-backup-if-mismatch < $d/patch.diff
-  if go test -vet=off -count=1 $pkg >/tmp/pvs_demo2.log 2>&1; then echo "demo WITHOUT change: PASS (expected)"; else echo "demo WITHOUT change: FAIL (unexpected)"; tail -5 /tmp/pvs_demo2.log; fi
+  if go test -trimpath -vet=off -count=1 $pkg >/tmp/pvs_demo2.log 2>&1; then echo "demo WITHOUT change: PASS (expected)"; else echo "demo WITHOUT change: FAIL (unexpected)"; tail -5 /tmp/pvs_demo2.log; fi
   rm -f $dest
   patch -p1 -s --no-backup-if-mismatch < $d/patch.diff
 fi
